@@ -98,7 +98,9 @@ theorem popFull_norm (o : Ops) (s : MSt) (el : Str) :
             · simp
             · split
               · simp
-              · simp
+              · split
+                · simp
+                · simp
 
 theorem popContent_norm (o : Ops) (s : MSt) (k : Str) :
     (popContent o (normSt s) k).1 = (popContent o s k).1 ∧ normSt (popContent o (normSt s) k).2 = normSt (popContent o s k).2 := by
@@ -134,6 +136,28 @@ theorem endContent_norm (o : Ops) (s : MSt) (h : Str) : (endContent o (normSt s)
           rw [hp.1, h2.1]
         rw [e1]
 
+theorem endExt_norm (o : Ops) (s : MSt) (kind : Str) : (endExt o (normSt s) kind).norm = (endExt o s kind).norm := by
+  unfold endExt
+  simp only [normSt_c]
+  simp only [Outcome.norm]
+  congr 1
+  have hp := popContent_norm o s (endPlan s.c kind).1
+  have h2 := (normSt_eq_iff _ _).mp hp.2
+  rw [normSt_eq_iff]
+  refine ⟨?_, h2.2⟩
+  have e1 : endExtCore o (normSt s) kind = endExtCore o s kind := by
+    unfold endExtCore endExtSaved
+    simp only [normSt_c, hp.1, h2.1]
+  rw [e1]
+
+theorem applyExt_norm (st : List Elem) (r : Except Str (Core × List Elem)) :
+    (applyExt (st.map normE) r).norm = (applyExt st r).norm := by
+  cases r with
+  | error w => rfl
+  | ok p =>
+    obtain ⟨c, es⟩ := p
+    simp [applyExt, Outcome.norm, normSt, List.map_append]
+
 theorem handleData_norm (s : MSt) (t : Str) : normSt (handleData (normSt s) t) = normSt (handleData s t) := by
   unfold handleData
   cases hs : s.stack with
@@ -160,14 +184,18 @@ theorem step_norm (o : Ops) (s : MSt) (e : MEv) : (mstep o (normSt s) e).norm = 
     by_cases hc : s.c.incontent = true
     · simp only [hc, ↓reduceIte]
     · simp only [hc, Bool.false_eq_true, ↓reduceIte, startTag0, normSt_c, normSt_stack]
-      exact applyDispatch_norm _ _
+      cases hx : extKind (handlerName (startPre o s.c tag attrs).1 tag) with
+      | some kind => exact applyExt_norm _ _
+      | none => exact applyDispatch_norm _ _
   | stop tag =>
     simp only [mstep, endTag, normSt_c]
     by_cases hc : s.c.incontent = true
     · simp only [hc, ↓reduceIte]
-      exact endContent_norm o s _
+      cases hx : extKind (handlerName s.c tag) with
+      | some kind => exact endExt_norm o s kind
+      | none => exact endContent_norm o s _
     simp only [hc, Bool.false_eq_true, ↓reduceIte]
-    by_cases hk : (contentEndKey (handlerName s.c tag)).isSome = true
+    by_cases hk : ((contentEndKey (handlerName s.c tag)).isSome || (extKind (handlerName s.c tag)).isSome) = true
     · simp only [hk, ↓reduceIte]
     simp only [hk, Bool.false_eq_true, ↓reduceIte, endTag0, normSt_c]
     have hpop : ∀ el, normSt (pop o (normSt s) el) = normSt (pop o s el) := pop_norm o s
